@@ -347,6 +347,15 @@ def check_C15(tier, seed):
             out.violation("compile-run:valid-grammar-failed", "Compile::run failed on a valid grammar: %s" % so[:200], {"grammar_text": t})
         if want == 1 and not so.startswith("ERR"):
             out.violation("compile-run:no-error", "Compile::run did not return Err for a rejected grammar (%s): %r rc=%s" % (lab, so[:100], p.returncode), {"grammar_text": t, "rc": p.returncode})
+        if want == 1:
+            # the failure must stay visible on every later run with the same grammar and destination
+            for again in (2, 3):
+                p = subprocess.run([bs, "run" if again == 2 else "run_exit", gp, dest, "-", "-", "0", "-"], stdout=subprocess.PIPE, stderr=subprocess.PIPE, env=build.BASE_ENV, timeout=120)
+                ntool += 1
+                so2 = p.stdout.decode("utf-8", "replace").strip()
+                if (again == 2 and not so2.startswith("ERR")) or (again == 3 and p.returncode != 1):
+                    out.violation("compile-run:error-swallowed-on-repeat", "run #%d of the build-script helper on the same rejected grammar and destination no longer reports the failure (%s): %r rc=%s" % (again, lab, so2[:80], p.returncode),
+                                  {"grammar_text": t, "rc": p.returncode, "run": again})
         if os.path.exists(dest):
             os.remove(dest)
         p = subprocess.run([bs, "run_exit", gp, dest, "-", "-", "0", "-"], stdout=subprocess.PIPE, stderr=subprocess.PIPE, env=build.BASE_ENV, timeout=120)
